@@ -71,7 +71,11 @@ def _swarm_feat(cfg):
     f["nfuncs"] = cfg.randint(3, 8)
     f["nvars"] = cfg.randint(0, 5)
     kinds = [k for k in CONSERVATIVE_KINDS if cfg.random() < 0.7] or ["int"]
+    if cfg.random() < 0.5:
+        # bytes globals are refused loudly by dds (coded TYPE_NOT_SUPPORTED error): outside the supported subset
+        kinds += [k for k in ALL_KINDS if k not in CONSERVATIVE_KINDS and k != "bytes" and cfg.random() < 0.4]
     f["var_kinds"] = kinds
+    f["literals"] = cfg.choice(["safe", "safe", "all"])
     f["forms"] = ["direct"] + [x for x in ["from", "alias", "attr", "pkgattr"] if cfg.random() < 0.5]
     f["varforms"] = ["direct"] + [x for x in ["from", "attr"] if cfg.random() < 0.4]
     f["ho"] = cfg.random() < 0.3
